@@ -1786,11 +1786,11 @@ func (cs *clientStream) writeRequestBody(req *http.Request, dumps []*dump.Dumper
 		remain := buf[:n]
 		for len(remain) > 0 && err == nil {
 			var allowed int32
+			// On success awaitFlowControl returns with cc.wmu held.
 			allowed, err = cs.awaitFlowControl(len(remain))
 			if err != nil {
 				return err
 			}
-			cc.wmu.Lock()
 			data := remain[:allowed]
 			remain = remain[allowed:]
 			sentEnd = sawEOF && len(remain) == 0 && !hasTrailers
@@ -1859,26 +1859,57 @@ func (cs *clientStream) writeRequestBody(req *http.Request, dumps []*dump.Dumper
 // control tokens from the server.
 // It returns either the non-zero number of tokens taken or an error
 // if the stream is dead.
+//
+// On success it returns with cc.wmu held: the tokens are taken while holding
+// the write lock, so that no SETTINGS frame of the peer (which can lower
+// the stream windows and the maximum frame size, see processSettings) is
+// applied and acknowledged between sizing the DATA frame and writing it.
+// The caller must release cc.wmu after writing the frame.
 func (cs *clientStream) awaitFlowControl(maxBytes int) (taken int32, err error) {
 	cc := cs.cc
 	ctx := cs.ctx
-	cc.mu.Lock()
-	defer cc.mu.Unlock()
-	for {
+	// dead reports why the stream can no longer send; cc.mu must be held.
+	dead := func() error {
 		if cc.closed {
-			return 0, errClientConnClosed
+			return errClientConnClosed
 		}
 		if cs.reqBodyClosed != nil {
-			return 0, errStopReqBodyWrite
+			return errStopReqBodyWrite
 		}
 		select {
 		case <-cs.abort:
-			return 0, cs.abortErr
+			return cs.abortErr
 		case <-ctx.Done():
-			return 0, ctx.Err()
+			return ctx.Err()
 		case <-cs.reqCancel:
-			return 0, common.ErrRequestCanceled
+			return common.ErrRequestCanceled
 		default:
+			return nil
+		}
+	}
+	for {
+		// Wait for tokens with only cc.mu held.
+		cc.mu.Lock()
+		for {
+			if err := dead(); err != nil {
+				cc.mu.Unlock()
+				return 0, err
+			}
+			if cs.flow.available() > 0 {
+				break
+			}
+			cc.cond.Wait()
+		}
+		cc.mu.Unlock()
+
+		// Take them with the write lock held (lock order: wmu before mu,
+		// as in processSettings).
+		cc.wmu.Lock()
+		cc.mu.Lock()
+		if err := dead(); err != nil {
+			cc.mu.Unlock()
+			cc.wmu.Unlock()
+			return 0, err
 		}
 		if a := cs.flow.available(); a > 0 {
 			take := a
@@ -1889,9 +1920,13 @@ func (cs *clientStream) awaitFlowControl(maxBytes int) (taken int32, err error) 
 				take = int32(cc.maxFrameSize)
 			}
 			cs.flow.take(take)
+			cc.mu.Unlock()
 			return take, nil
 		}
-		cc.cond.Wait()
+		// The tokens are gone again (a SETTINGS frame lowered the window,
+		// or another stream used the connection window): wait again.
+		cc.mu.Unlock()
+		cc.wmu.Unlock()
 	}
 }
 
